@@ -415,6 +415,7 @@ struct CbCtx {
   std::set<std::string> reject_paths;
   std::set<long long> reject_idx;
   std::set<std::string> reject_base;
+  std::set<std::string> reject_norm;
   long long calls = 0;
 };
 static thread_local CbCtx *t_expected_cb = nullptr;
@@ -430,6 +431,10 @@ static bool the_callback(const char *filename, const void *data) {
   std::string fn = filename ? filename : "";
   if (m) {
     if (m->reject_paths.count(fn)) accept = false;
+    if (!m->reject_norm.empty()) {     // compare with multiple slashes collapsed
+      std::string nf; for (char ch : fn) { if (ch == '/' && !nf.empty() && nf.back() == '/') continue; nf += ch; }
+      if (m->reject_norm.count(nf)) accept = false;
+    }
     if (m->reject_idx.count(idx)) accept = false;
     size_t sl = fn.rfind('/');
     if (m->reject_base.count(sl == std::string::npos ? fn : fn.substr(sl + 1))) accept = false;
@@ -443,6 +448,7 @@ static void cb_setup(const json &op, CbCtx &c) {
   if (it == op.end() || it->is_null()) return;
   if (it->contains("reject_paths")) for (auto &p : (*it)["reject_paths"]) c.reject_paths.insert(subst_in(u2b(p.get<std::string>())));
   if (it->contains("reject_idx")) for (auto &p : (*it)["reject_idx"]) c.reject_idx.insert(p.get<long long>());
+  if (it->contains("reject_norm")) for (auto &p : (*it)["reject_norm"]) c.reject_norm.insert(subst_in(u2b(p.get<std::string>())));
   if (it->contains("reject_base")) for (auto &p : (*it)["reject_base"]) c.reject_base.insert(u2b(p.get<std::string>()));
 }
 
@@ -732,6 +738,31 @@ static json exec_op(TaskCtx *t, const json &op) {
     auto h = t->hslots.find((int)I(op, "h", -1)); json a = json::array();
     if (h != t->hslots.end()) for (size_t i = 0; i < h->second.second; i++) a.push_back(dump_obj(h->second.first[i], op.value("ext", true)));
     r["members"] = a;
+  } else if (o == "mergeHistory") {
+    // oracle helper of C12: fold the history left to right with the library's own merge,
+    // skipping a member when a later member has the same file name
+    auto h = t->hslots.find((int)I(op, "h", -1));
+    if (h == t->hslots.end() || h->second.second == 0) { r["rc"] = -1; }
+    else {
+      size_t n = h->second.second; econf_file **m = h->second.first;
+      std::vector<std::string> base(n);
+      for (size_t i = 0; i < n; i++) { char *p; { LibCall L; p = econf_getPath(m[i]); } std::string sp = p ? p : ""; { LibCall L; free(p); } size_t sl = sp.rfind('/'); base[i] = sl == std::string::npos ? sp : sp.substr(sl + 1); }
+      econf_file *acc = nullptr; bool acc_owned = false; int rc = 0; json skipped = json::array();
+      for (size_t i = 0; i < n && rc == 0; i++) {
+        bool skip = false; for (size_t j = i + 1; j < n; j++) if (base[j] == base[i]) skip = true;
+        if (i == 0 && op.value("first_is_main", false)) skip = false;   // the main file is not a drop-in: never masked (C01)
+        if (skip) { skipped.push_back(i); continue; }
+        if (!acc) { acc = m[i]; continue; }
+        econf_file *nm = nullptr; { LibCall L; rc = econf_mergeFiles(&nm, acc, m[i]); }
+        if (acc_owned) { LibCall L; econf_freeFile(acc); }
+        acc = nm; acc_owned = true;
+      }
+      r["rc"] = rc; r["skipped"] = skipped;
+      if (acc && !acc_owned) { // a single member: copy it by merging with itself so that the slot owns its object
+        econf_file *nm = nullptr; { LibCall L; rc = econf_mergeFiles(&nm, acc, acc); } acc = nm; r["rc"] = rc;
+      }
+      put_slot(t, oi, acc);
+    }
   } else if (o == "free") {
     auto s = t->slots.find((int)I(op, "k", -1));
     econf_file *kf = s == t->slots.end() ? nullptr : s->second; if (s != t->slots.end()) t->slots.erase(s);
